@@ -73,6 +73,14 @@ func encodeTMS(t *tms20.TileMatrixSet) (out []byte, kind string, msg string) {
 }
 
 func mustLoadBuiltin(c *hc.Ctx, name string) (tms20.TileMatrixSet, error) {
+	// a built-in set reaches the tool through LoadEmbeddedTileMatrixSet: the value used here is the one a SECOND load
+	// returns (the cached one), so that whatever the loader does to a set it keeps is in front of the oracles, which take
+	// their expectations from the raw document, tile matrix by tile matrix, by the "id" member
+	if _, err := tms20.LoadEmbeddedTileMatrixSet(name); err == nil {
+		if t, err := tms20.LoadEmbeddedTileMatrixSet(name); err == nil {
+			return t, nil
+		}
+	}
 	raw, err := builtinRaw(c, name)
 	if err != nil {
 		return tms20.TileMatrixSet{}, err
